@@ -62,6 +62,7 @@ type Shared struct {
 	fnInfo   sync.Map // *ssa.Function -> *fnInfo
 	extCache sync.Map // *ssa.Function -> extEntry
 	job      string
+	verbose  bool
 	paranoid int // cross-check every n-th solver-free decision with the solver (0 = off)
 	overrides map[string]extFn
 	permuteMaps bool
@@ -164,6 +165,8 @@ type Engine struct {
 	validateEvery int
 	okPaths     int
 	pathViol    int
+	curFrame    *frame
+	lastTrace   string
 	Asserts     int
 }
 
@@ -766,6 +769,9 @@ func (e *Engine) runPath(entry *ssa.Function) {
 					}
 				case targetPanic:
 					outcome = "panic"
+					if e.trace || e.sh.verbose {
+						fmt.Printf("uncaught panic %s at: %s\n", e.show(r.v), e.lastTrace)
+					}
 					e.report("panic", e.class, "uncaught panic: "+e.show(r.v))
 				default:
 					panic(r)
